@@ -154,8 +154,8 @@ def model_terms(case):
             terms.append('(match nil_check %s %d %s %s with NilError => false | _ => true end)' % (
                 coq_bool(inst['nillable']), inst['v'], coq_bool(inst['has_fixed']), coq_bool(inst['empty'])))
         elif k == 'alt':
-            terms.append('(Nat.eqb (alternative_type %s 0) %d)' % (
-                coq_list(['(%s, %d)' % (coq_bool(b), t) for b, t in inst['alts']]), inst['want']))
+            terms.append('(Nat.eqb (alternative_type_dyn %s 0) %d)' % (
+                coq_list(['(%s, %d)' % ('TError' if b == 'err' else 'TBool ' + coq_bool(b), t) for b, t in inst['alts']]), inst['want']))
         else:
             terms.append('true')
     return terms
@@ -270,15 +270,16 @@ def alt_case(rng):
     combos += [(None, kv, None, n) for kv in (None, 'b') for n in ('2', '0', '5', 'x', '')]
 
     def holds(t, eff, d, n):
+        """True / False, or 'err' when the evaluation ends in a dynamic error (model: TError)"""
         if t == DTEST:
-            return d == '2021-01-01'
+            return d == '2021-01-01' if d in (None, '2021-01-01', '2019-01-01') else 'err'
         if t == NTEST:
-            return n == '2'
+            return n == '2' if n in (None, '2', '5') else 'err'
         return t == "@k='%s'" % eff
     for dock, kv, d, n in combos:
         eff = kv if kv is not None else dock
         flags = [holds(t, eff, d, n) for t, _ty in alts]
-        chosen = next((ty for (t, ty), f in zip(alts, flags) if f), None)
+        chosen = next((ty for (t, ty), f in zip(alts, flags) if f is True), None)
         for content_ty in types:
             content = good[content_ty]
             if chosen is None:
@@ -355,6 +356,9 @@ def evaluate(ctx, cases):
         ctx.count((kind, json.dumps(c['hier'], sort_keys=True), json.dumps(c['elems'], sort_keys=True), inst['xml'], c['version']),
                   nontrivial=kind in ('xsitype', 'subst') and len(c['hier']['types']) >= 3 or kind in ('nil', 'fixed', 'alt'))
         ctx.dist('kind', '%s/%s' % (kind, 'valid' if want else 'invalid'))
+        if kind == 'alt':
+            ctx.dist('alternative tests', 'a test ends in a dynamic error' if any(f == 'err' for f, _t in inst.get('alts', []))
+                     else 'all tests evaluate')
         if o['valid'] != want:
             ctx.violation('%s [%s, XSD %s]: implementation says %s, the %s rules say %s; errors %s'
                           % (inst['xml'], kind, c['version'], 'valid' if o['valid'] else 'invalid',
